@@ -243,7 +243,7 @@ var namePool = []string{
 	"foo bar", "na\xc3\xafve", "WARC-Bloc\xe2\x84\xaa-Digest", "warc-record-\xc4\xb0d", "\xff-x", "", "x_y-z.w", "9a-b", "WARC-JSON-Metadata", "warc-page-id",
 }
 
-var valuePool = []string{"", "v", "1", "42", "-7", "+5", "0012", "9223372036854775807", "9223372036854775808", "-9223372036854775808", "1_0", "0x10", " 3", "abc", "<urn:uuid:1>", "<x", "x>", "urn:x", "<", ">", "<>", "a b", "a:b", "\xe2\x84\xaa"}
+var valuePool = []string{"", "v", "1", "42", "-7", "+5", "0012", "9223372036854775807", "9223372036854775808", "-9223372036854775808", "1_0", "0x10", " 3", "abc", "<urn:uuid:1>", "<x", "x>", "urn:x", "<", ">", "<>", "a b", "a:b", "\xe2\x84\xaa", "abc\f", "\vabc", "x\xc2\xa0", "\xe3\x80\x80", "y\xc2\x85", "\f"}
 
 func genName(r *rng) string {
 	switch r.intn(10) {
